@@ -60,6 +60,66 @@ fn surf_case(stored: f64, probe: f64, op: &str, probe_is_int: bool) -> i32 {
     }
 }
 
+/// F-C07-a: what EventBuilder::add_field (the entry point the segment reader used for string
+/// columns) does to a string cell.
+fn stringcell(text: &str) -> i32 {
+    use snel_db::engine::core::EventBuilder;
+    use snel_db::engine::types::ScalarValue;
+    let mut b = EventBuilder::new();
+    b.add_field("x", text);
+    let ev = b.build();
+    let v = ev.payload.get("x").cloned();
+    println!("string cell {text:?} read through EventBuilder::add_field -> {v:?}; rendered {}", v.as_ref().map(|x| x.to_json().to_string()).unwrap_or_default());
+    match v {
+        Some(ScalarValue::Utf8(s)) if s == text => 0,
+        _ => 3,
+    }
+}
+
+/// Validates the hand-built trie arrays of the Kani harness (kani/src/c08_trie.rs, included
+/// verbatim) against the real builder for every pair of 3-byte keys over a small alphabet.
+mod trie_shapes {
+    include!(concat!(env!("CARGO_MANIFEST_DIR"), "/../kani/src/c08_trie_shapes.rs"));
+}
+
+fn triecheck() -> i32 {
+    use snel_db::engine::core::filter::surf_trie::SurfTrie;
+    let alpha = [0u8, 1, 2, 127, 128, 255];
+    let mut keys = Vec::new();
+    for &x in &alpha {
+        for &y in &alpha {
+            for &z in &alpha {
+                keys.push([x, y, z]);
+            }
+        }
+    }
+    let mut n = 0u64;
+    for a in &keys {
+        for b in &keys {
+            if a > b {
+                continue;
+            }
+            let mine = trie_shapes::trie_for(*a, *b);
+            let mut sorted = vec![a.to_vec(), b.to_vec()];
+            sorted.sort();
+            sorted.dedup();
+            let real = SurfTrie::build_from_sorted(&sorted);
+            n += 1;
+            if mine.degrees != real.degrees
+                || mine.child_offsets != real.child_offsets
+                || mine.labels != real.labels
+                || mine.edge_to_child != real.edge_to_child
+                || mine.is_terminal_bits != real.is_terminal_bits
+            {
+                println!("trie mismatch for {a:?} {b:?}: harness {mine:?} builder {real:?}");
+                return 3;
+            }
+        }
+    }
+    println!("triecheck: {n} key pairs, harness trie == SurfTrie::build_from_sorted");
+    0
+}
+
 /// C19 native witness: real WalCleaner with the global configuration is not available here,
 /// so this case only exercises deletion with the cut-off (non-conservative default path).
 fn main() {
@@ -67,6 +127,8 @@ fn main() {
     let args: Vec<String> = std::env::args().collect();
     let code = match args.get(1).map(|s| s.as_str()) {
         Some("parse") if args.len() >= 3 => parse_case(&args[2]),
+        Some("triecheck") => triecheck(),
+        Some("stringcell") if args.len() >= 3 => stringcell(&args[2]),
         Some("surf") if args.len() >= 6 => surf_case(
             args[2].parse().unwrap(),
             args[4].parse().unwrap(),
